@@ -292,8 +292,9 @@ namespace foonathan
             void reserve(std::size_t node_size, std::size_t capacity)
             {
                 FOONATHAN_MEMORY_ASSERT_MSG(node_size <= max_node_size(), "node_size too big");
-                auto& pool = pools_.get(node_size);
-                reserve_memory(pool, capacity);
+                auto& pool  = pools_.get(node_size);
+                auto  block = reserve_memory(pool, capacity);
+                pool.insert(block.memory, block.size);
             }
 
             /// \returns The maximum node size for which is a free list.
